@@ -1153,6 +1153,16 @@ func (s *manifestStore) deleteWithIndexing(ctx context.Context, target ocispec.D
 			return err
 		}
 		if err := s.indexReferrersForDelete(ctx, target, manifestJSON); err != nil {
+			var re *ReferrersError
+			if !errors.As(err, &re) || !re.IsReferrersIndexDelete() {
+				return err
+			}
+			// the referrers index has been updated and only the clean-up of
+			// the dangling index failed: finish the deletion and report the
+			// clean-up error afterwards
+			if delErr := s.repo.delete(ctx, target, true); delErr != nil {
+				return delErr
+			}
 			return err
 		}
 	}
